@@ -12,6 +12,8 @@ struct Ctx {
     tier: String,
     seed: u64,
     n: usize,
+    /// light mode (sweep over all layouts): a handful of literals / values per layout
+    light: bool,
 }
 impl Ctx {
     fn on(&self, t: &str) -> bool { self.topics.iter().any(|x| x == t) }
@@ -275,20 +277,23 @@ const MALFORMED: &[&[u8]] = &[b"", b"+", b"-", b".", b"+.", b"-.", b"1..2", b"1.
 fn run_parse<F: Fx>(c: &mut Ctx) {
     let l = F::lay();
     let mut rng = Rng::new(c.seed ^ ((l.w as u64) << 32) ^ ((l.f as u64) << 16) ^ ((l.s as u64) << 8) ^ 0xC08);
-    let k = if c.thorough() { 40 } else { 4 };
+    let k = if c.thorough() { 40 } else if c.light { 0 } else { 4 };
     if c.on("ties") {
-        for s in tie_literals(l, &mut rng, k) { ev_parse::<F>(c, 10, &s); }
+        let lits = tie_literals(l, &mut rng, k);
+        for s in lits.iter().step_by(if c.light { 7 } else { 1 }) { ev_parse::<F>(c, 10, s); }
     }
     if c.on("dec") {
-        let n = if c.thorough() { 600 } else { 40 };
+        let n = if c.thorough() { 600 } else if c.light { 6 } else { 40 };
         for s in random_decimals(l, &mut rng, n) { ev_parse::<F>(c, 10, &s); }
     }
     if c.on("radix") {
         for rx in [2u32, 8, 16] {
-            for s in radix_literals(l, rx, &mut rng, if c.thorough() { 60 } else { 3 }) { ev_parse::<F>(c, rx, &s); }
+            let lits = radix_literals(l, rx, &mut rng, if c.thorough() { 60 } else { 3 });
+            let step = if c.light { 9 } else { 1 };
+            for s in lits.iter().step_by(step) { ev_parse::<F>(c, rx, s); }
         }
     }
-    if c.on("malformed") {
+    if c.on("malformed") && !c.light {
         for s in MALFORMED {
             for rx in [10u32, 2, 8, 16] { ev_parse::<F>(c, rx, s); }
         }
@@ -429,7 +434,13 @@ fn run_fmt<F: Fx>(c: &mut Ctx) {
     if !c.on("fmt") { return; }
     let l = F::lay();
     let mut rng = Rng::new(c.seed ^ ((l.w as u64) << 32) ^ ((l.f as u64) << 16) ^ ((l.s as u64) << 8) ^ 0xC09);
-    let vals: Vec<u128> = if l.w == 8 {
+    let vals: Vec<u128> = if c.light {
+        let lat = gen::lattice_small(l);
+        let mut v: Vec<u128> = lat.iter().step_by(6).cloned().collect();
+        v.push(rng.pattern(l.w));
+        v.push(rng.pattern(l.w));
+        v
+    } else if l.w == 8 {
         (0..256).collect()
     } else {
         let mut v = gen::lattice_small(l);
@@ -438,9 +449,9 @@ fn run_fmt<F: Fx>(c: &mut Ctx) {
         for k in 0..12u32 { v.push((1u128 << (k * (l.w - 1) / 12)) & mask(l.w)); }
         v
     };
-    let dprecs: &[Option<usize>] = if c.thorough() { &[None, Some(0), Some(1), Some(2), Some(3), Some(5), Some(8), Some(10), Some(20), Some(40), Some(200)] }
+    let dprecs: &[Option<usize>] = if c.light { &[None, Some(2), Some(20)] } else if c.thorough() { &[None, Some(0), Some(1), Some(2), Some(3), Some(5), Some(8), Some(10), Some(20), Some(40), Some(200)] }
                                    else { &[None, Some(0), Some(1), Some(3), Some(8), Some(20)] };
-    let rprecs: &[Option<usize>] = if c.thorough() { &[None, Some(0), Some(1), Some(2), Some(4), Some(9), Some(130)] } else { &[None, Some(1), Some(3)] };
+    let rprecs: &[Option<usize>] = if c.light { &[None] } else if c.thorough() { &[None, Some(0), Some(1), Some(2), Some(4), Some(9), Some(130)] } else { &[None, Some(1), Some(3)] };
     for (i, &raw) in vals.iter().enumerate() {
         let pick = rng.next();
         let w = [0usize, 3, 7, 12, 40][(pick % 5) as usize];
@@ -473,13 +484,19 @@ fn main() {
         tier: o.tier.clone(),
         seed: o.seed,
         n: o.n as usize,
+        light: o.extra.iter().any(|x| x == "--all"),
     };
     let _ = c.n;
-    runs!(&mut c; run_tokens; I4F4 U8F8);
-    for_w8!(runs!(&mut c; run;));
-    for_w16!(runs!(&mut c; run;));
-    for_w32!(runs!(&mut c; run;));
-    for_w64!(runs!(&mut c; run;));
-    for_w128!(runs!(&mut c; run;));
+    if c.light {
+        // sweep: every one of the 506 layouts, lightly
+        for_all_layouts!(runs!(&mut c; run;));
+    } else {
+        runs!(&mut c; run_tokens; I4F4 U8F8);
+        for_w8!(runs!(&mut c; run;));
+        for_w16!(runs!(&mut c; run;));
+        for_w32!(runs!(&mut c; run;));
+        for_w64!(runs!(&mut c; run;));
+        for_w128!(runs!(&mut c; run;));
+    }
     c.wr.flush();
 }
